@@ -708,6 +708,19 @@ func DialLegacy(t Target, connID string) (*Legacy, error) {
 	return l, nil
 }
 
+// DialLegacySplit opens OUT with one target and IN with another (e.g. from different client addresses).
+func DialLegacySplit(tOut, tIn Target, connID string) (*Legacy, error) {
+	l, err := OpenOut(tOut, connID)
+	if err != nil {
+		return nil, err
+	}
+	if err := l.OpenIn(tIn, connID); err != nil {
+		l.Close()
+		return nil, err
+	}
+	return l, nil
+}
+
 // Dial opens a tunnel transport of the given kind ("ws" or "legacy").
 func Dial(kind string, t Target, connID string) (Conn, error) {
 	if kind == "legacy" {
